@@ -758,7 +758,7 @@ def run_pop_histories(params, known):
         if kind in kinds:
             return
         kinds.add(kind)
-        v = Violation(PROP, 'receive-queue', kind, dict(), '%r: %s' % (case, detail)).as_dict()
+        v = Violation(params.get('prop', PROP), 'receive-queue', kind, dict(), '%r: %s' % (case, detail)).as_dict()
         v['case'] = case
         violations.append(v)
     bundles = [bundle_like(12 + k, seed=k + 1) for k in range(N)]
@@ -1151,6 +1151,7 @@ def c18_udp_scenarios(tier):
         out.append(dict(name='udpcl/first-%s' % ALPHA[first][0], kind='graph',
                         params=dict(udpcl=True, max_depth=4 if tier == 'thorough' else 3, letters=letters, prefix=[first]),
                         dev_bound=0, use_snapshot=False, liveness=False, max_states=300000, weight=5))
+    out.append(dict(name='udpcl/pop-histories', kind='enum', runner='run_pop_histories', params=dict(name='udpcl/pop-histories', prop='C18'), weight=5))
     out.append(dict(name='udpcl/send-histories', kind='enum', runner='run_send_histories',
                     params=dict(name='udpcl/send-histories', depth=4 if tier == 'thorough' else 3), weight=5))
     return out
